@@ -468,6 +468,19 @@ def processConc (h : Hist) (b : Block) (otoks : List String) : Hist :=
           let outsOk := (order.zip steps).all fun (x : ((Nat × Option Req) × String) × (IEv × List Delivery × Outcome)) => outcomeTok x.2.2.2 == x.1.2
           let ms := sortNat (srv'.sessions.map fun (x : Session) => x.id)
           if outsOk && ms == b.sessions && srv'.gauge == b.gauge && (ghostDiff srv' b.ghost).isNone then some (srv', steps) else none
+    -- C06 / C12 under concurrency: the state a newcomer is handed holds no component of an entity that is not in it (an
+    -- entity leaves the session before its components are removed; whatever the newcomer is handed in between, it must
+    -- not be a component that nothing will ever take back)
+    let orphans : List String := b.ds.filterMap fun (d : Delivery) =>
+      match d.2 with
+      | .sessionState _ ents comps =>
+        let bad := comps.filter fun (c : Comp) => !(ents.any fun (e : EntityView) => e.id == c.eid)
+        if bad.isEmpty then none else some s!"connection {d.1} is handed the components {reprStr bad} and the entities {ents.map (·.id)}"
+      | _ => none
+    let h := if orphans.isEmpty then h else
+      let d := flatS s!"{" ".intercalate b.ev} :: {orphans}"
+      { h with concViol := ((h.concViol.push ("C06", "newcomer-handed-a-component-without-its-entity", d)).push
+          ("C12", "newcomer-handed-a-component-without-its-entity", d)).push ("C01", "newcomer-handed-a-component-without-its-entity", d) }
     -- C05 under concurrency: a refused delete request removes nothing - an action or an asset instance whose request
     -- was answered with success within the block is in the module's state afterwards, unless a delete request or a
     -- departure of the block was not refused
